@@ -76,6 +76,7 @@ def gen_classes(rng):
             nf = rng.range(1, 3)
             fids = rng.shuffle(list(range(len(FNAMES))))[:nf]
             c["fields"] = [(fid, gen_tyexpr(rng, classes, c, generic, allow_self=rng.chance(1, 8))) for fid in fids]
+            c["private"] = [fid for fid in fids if rng.chance(1, 8)]
         classes.append(c)
     return classes
 
@@ -168,6 +169,8 @@ def gen_pat(rng, classes, t, depth, in_or=False, malformed=False, ctr=None):
             return ("O", [(rng.below(len(FNAMES)), ("W",))])
     leafy = depth >= 4 or d[0] == "prim" or rng.chance(2 + depth, 10)
     if leafy:
+        if malformed and not in_or and rng.chance(1, 14):
+            return ("I", 0)                          # shadows the parameter `x`: NameAlreadyBound
         if malformed and not in_or and ctr[0] > 0 and rng.chance(1, 8):
             return ("I", rng.range(1, ctr[0]))      # a name that is (probably) already bound: NameAlreadyBound
         return ("W",) if in_or or rng.chance(1, 2) else ("I", fresh(ctr))
@@ -223,7 +226,7 @@ def pat_src(p, nm):
     if k == "W":
         return "_"
     if k == "I":
-        return f"v{p[1]}"
+        return f"v{p[1]}" if p[1] else "x"      # name 0 = the function parameter (shadowing)
     if k == "T":
         return "(" + ", ".join(pat_src(x, nm) for x in p[1]) + ")"
     if k == "O":
@@ -262,18 +265,19 @@ def pat_depth(p):
     return 1 + max([pat_depth(x) for x in subs] + [0])
 
 
-def class_src(c):
+def class_src(c, inner=""):
     head = f"class {c['name']}" + ("<" + ", ".join(TPNAMES[:c["generic"]]) + ">" if c["generic"] else "")
     if c["kind"] == "enum":
         body = ", ".join(VNAMES[v] + ("(" + ", ".join(ty_src(x) for x in tys) + ")" if tys else "") for v, tys in c["variants"])
     else:
-        body = ", ".join(f"val {FNAMES[f]}: {ty_src(x)}" for f, x in c["fields"])
-    return f"{head}({body}) {{}}"
+        priv = c.get("private", [])
+        body = ", ".join(("private val " if f in priv else "val ") + f"{FNAMES[f]}: {ty_src(x)}" for f, x in c["fields"])
+    return f"{head}({body}) {{{inner}}}"
 
 
 def render_case(case):
     nm = Namer()
-    lines = [class_src(c) for c in case["classes"]]
+    home = case.get("home")
     ty = ty_src(case["ty"])
     pats = case["pats"]
     if case["kind"] == "match":
@@ -283,7 +287,11 @@ def render_case(case):
         body = f"{{ let {pat_src(pats[0], nm)} = x; 1 }}"
     else:
         body = f"if let {pat_src(pats[0], nm)} = x {{ 1 }} else {{ 2 }}"
-    lines += ["class Main {", f"  function f(x: {ty}): int = {body}", "}"]
+    fn = f"function f(x: {ty}): int = {body}"
+    # `home`: the match sits inside that class (its private fields are accessible there)
+    lines = [class_src(c, f"\n  {fn}\n" if c["name"] == home else "") for c in case["classes"]]
+    if home is None:
+        lines += ["class Main {", "  " + fn, "}"]
     return "\n".join(lines) + "\n"
 
 
@@ -326,6 +334,15 @@ def case_line(case):
             for f, t in c["fields"]:
                 toks += [str(f)] + gty(t)
     toks += ["Y", str(len(order))] + [x for t in order for x in gty(t)]
+    toks += ["X", str(len(order))]
+    home = case.get("home")
+    for t in order:
+        c = next((c for c in classes if t[0] == "cls" and c["name"] == t[1]), None)
+        if c is not None and c["kind"] == "struct":
+            priv = c.get("private", [])
+            toks += [str(len(c["fields"]))] + ["0" if f in priv and c["name"] != home else "1" for f, _ in c["fields"]]
+        else:
+            toks.append("0")
     return " ".join(toks)
 
 
@@ -361,6 +378,8 @@ def gen_case(rng, malformed=False, want_uninhabited=False):
     else:
         classes = [{"name": "C0", "generic": 0, "kind": "enum", "variants": [(0, []), (1, [("int",)])]}]
         ty = ("cls", "C0", None)
+    homes = [c["name"] for c in classes if c["kind"] == "struct" and not c["generic"] and c.get("private")]
+    home = rng.pick(homes) if homes and rng.chance(1, 2) else None
     kind = rng.weighted([("match", 7), ("let", 1), ("iflet", 2)])
     if kind == "match":
         n = rng.weighted([(1, 2), (2, 4), (3, 4), (4, 3), (5, 2), (6, 1)])
@@ -371,7 +390,7 @@ def gen_case(rng, malformed=False, want_uninhabited=False):
     if kind != "match" and not malformed and rng.chance(1, 3):
         # make irrefutable patterns likelier
         pats = [irrefutable(rng, classes, ty, 0, ctr)]
-    return {"classes": classes, "ty": ty, "kind": kind, "pats": pats, "malformed": malformed}
+    return {"classes": classes, "ty": ty, "kind": kind, "pats": pats, "malformed": malformed, "home": home}
 
 
 def irrefutable(rng, classes, t, depth, ctr):
@@ -477,7 +496,7 @@ def dup_names(p):
 
 
 def well_formed(classes, p, t, top=True):
-    if top and dup_names(p)[1]:
+    if top and (dup_names(p)[1] or 0 in dup_names(p)[0]):
         return False
     return well_formed1(classes, p, t)
 
@@ -672,7 +691,8 @@ def model_verdict(ans):
     kv = dict(x.split("=", 1) for x in ans.split(" "))
     ne = None if kv["nonexh"] == "-" else re.sub(r"#(\d+)", lambda m: VNAMES[int(m.group(1))], kv["nonexh"].replace("~", " "))
     return {"nonexh": ne, "useless": kv["useless"] == "1", "err": kv["err"] == "1",
-            "panic_norm": kv["panic"] == "1", "typed": kv["typed"] == "1", "inh": kv.get("inh") == "1", "mono": kv.get("mono") == "1"}
+            "panic_norm": kv["panic"] == "1", "typed": kv["typed"] == "1", "inh": kv.get("inh") == "1", "mono": kv.get("mono") == "1",
+            "hyp": kv.get("hyp") == "1", "swf": kv.get("swf") == "1"}
 
 
 def arity_overflow(classes, p, t):
@@ -717,6 +737,17 @@ def classify(ctx, case, ians, mans, stats):
         return (f"inhabitedness certificate of the model (inh={mv['inh']}) disagrees with the generator's fixpoint ({py_inh})", True, None)
     if not py_inh:
         stats["uninhabited"] = stats.get("uninhabited", 0) + 1
+    if not mv["hyp"]:
+        return ("the type table sent to the model violates CxOk / SigNodup (cxOkCheck && nodupCheck failed): the theorems do not apply to this case", True, None)
+    # the domain of the Lean source semantics (`swf`) against the oracle's own well-formedness:
+    # strictly well-formed => swf; swf, no duplicate / shadowing names and no diagnostic at all (so no
+    # omitted field either) => strictly well-formed
+    strict = all(well_formed(case["classes"], p, case["ty"]) for p in case["pats"])
+    clean_names = not any(dup_names(p)[1] or 0 in dup_names(p)[0] for p in case["pats"])
+    if (strict and not mv["swf"]) or (mv["swf"] and clean_names and not iv["err"] and not strict):
+        return (f"domain of the source semantics disagrees: model swf={mv['swf']}, oracle well-formed={strict}", True, None)
+    if mv["swf"] and mv["inh"]:
+        stats["certified"] = stats.get("certified", 0) + 1     # replayed_*_exact applies: no hypothesis left
     status, fails = oracle(case, iv)
     stats[status] = stats.get(status, 0) + 1
     if fails:
@@ -818,6 +849,41 @@ def run_cases(ctx, cases, label, stats):
     return bad
 
 
+def gen_object_case(rng):
+    """Stream `object-reorder`: a struct of 2-3 enum-typed fields matched by object patterns whose
+    fields are written in a random order, each with a refutable sub-pattern (or `_`), in several arms -
+    so a permutation of abstract columns changes the accept/reject verdict, not only the counterexample."""
+    ne = rng.range(1, 2)
+    classes = []
+    for i in range(ne):
+        names = rng.shuffle(list(range(len(VNAMES))))[:rng.range(2, 3)]
+        classes.append({"name": f"C{i}", "generic": 0, "kind": "enum",
+                        "variants": [(v, [("int",)] * rng.below(2)) for v in names]})
+    nf = rng.range(2, 3)
+    fids = rng.shuffle(list(range(len(FNAMES))))[:nf]
+    st = {"name": f"C{ne}", "generic": 0, "kind": "struct",
+          "fields": [(f, ("cls", rng.pick(classes)["name"], None)) for f in fids]}
+    classes.append(st)
+    ty = ("cls", st["name"], None)
+    ctr = [0]
+
+    def sub(t):
+        d = ty_def(classes, t)
+        if rng.chance(1, 4):
+            return ("W",) if rng.chance(1, 2) else ("I", fresh(ctr))
+        v, tys = rng.pick(d[2])
+        return ("V", v, [("W",)] * len(tys), True)
+    kind = rng.weighted([("match", 8), ("let", 1), ("iflet", 1)])
+    n = rng.range(2, 5) if kind == "match" else 1
+    pats = []
+    for _ in range(n):
+        if rng.chance(1, 5):
+            pats.append(("T", [sub(t) for _, t in st["fields"]]))
+        else:
+            pats.append(("O", rng.shuffle([(f, sub(t)) for f, t in st["fields"]])))
+    return {"classes": classes, "ty": ty, "kind": kind, "pats": pats}
+
+
 def exhaustive_small(ctx, stats, limit):
     """Search stream: every list of <= 3 arms over a fixed small declaration set drawn from a fixed
     pattern vocabulary (depth <= 2) - separates single-line changes of specialise/default/roots."""
@@ -871,13 +937,16 @@ def run(ctx):
     n_small = ctx.scale(600, 20000)
     n_mal = ctx.scale(300, 6000)
     n_un = ctx.scale(100, 2000)
+    n_obj = ctx.scale(300, 6000)
     batch = 500
-    for n, mk, label in ((n_valid, lambda: gen_case(rng.fork(), False), "generated valid"),
+    for n, mk, label in ((n_obj, lambda: gen_object_case(rng.fork()), "object-reorder"),
+                         (n_valid, lambda: gen_case(rng.fork(), False), "generated valid"),
                          (n_small, None, "small-vocabulary search"),
                          (n_mal, lambda: gen_case(rng.fork(), True), "generated malformed"),
                          (n_un, lambda: gen_case(rng.fork(), False, True), "generated with an uninhabited type (model/implementation agreement only)")):
         done = 0
-        while done < n and not ctx.violations:
+        # keep searching after a mere tie disagreement: a concrete property-level input is worth more
+        while done < n and not any(not v[1] for v in ctx.violations) and len(ctx.violations) < 6:
             k = min(batch, n - done)
             cases = exhaustive_small(ctx, stats, k) if mk is None else [mk() for _ in range(k)]
             run_cases(ctx, cases, f"{label} seed={ctx.seed}", stats)
@@ -900,12 +969,11 @@ def run(ctx):
         "rule": "one evaluation = one generated module (1-4 enum/struct/generic classes, recursive and nested) with one match (1-6 arms) / destructuring let / if-let over variant, tuple, object, wildcard, id, or-patterns of depth <= 4, type-checked by the real checker and by the model; non-trivial = distinct implementation answer carrying a NonExhaustiveMatch counterexample or an irrefutable-if-let diagnostic",
         "samples": samples, "traces_validated_against_impl": total,
         "case_kinds": stats["kinds"], "impl_outcomes": stats["outcomes"],
-        "oracle": {k: v for k, v in stats.items() if k in ("checked", "skipped-size", "skipped-malformed", "skipped-uninhabited", "illtyped", "uninhabited")},
+        "oracle": {k: v for k, v in stats.items() if k in ("checked", "skipped-size", "skipped-malformed", "skipped-uninhabited", "illtyped", "uninhabited", "certified")},
         "pending": PENDING})
     ctx.assumptions += [
         "every type reachable from the scrutinee type has a value (Inhabited'); for uninhabited recursive enums the algorithm still asks for all variants (stated in DESIGN section 8 C07)",
-        "identifiers do not shadow the function parameter (generated names are fresh)",
-        "variant names <= 15 bytes so that PStr order is byte order"]
+                "variant names <= 15 bytes so that PStr order is byte order"]
     return ctx.finish(res, trusted=common.TRUSTED_COMMON + [
         "hand-written model Model/Useful.lean (HashMap of root constructors as association list; default-matrix row order differs from the Rust work-list, no caller depends on it)",
         "Python brute-force oracle in vlib/c07.py (values up to patterns' depth+1 with least inhabitants below)",
@@ -913,8 +981,8 @@ def run(ctx):
 
 
 PENDING = [
-    "visibility of fields (`private val`) in patterns is not modelled (generators declare public fields only)",
-    "the run-time meaning of `smatch` (that the lowered match really tests what the source-level semantics says) belongs to C01/C03 (`lowerMatch_correct`); finding C07-F2 was found by executing the compiled program by hand, the check itself does not execute programs",
+    "the run-time meaning of `smatch` (that the lowered match really tests what the source-level semantics says) belongs to C01/C03 (`lowerMatch_correct`); the C07 check itself does not execute programs",
+    "the diagnostics other than NonExhaustiveMatch / UselessPattern are compared as one flag (`err`: some other diagnostic was reported), not kind by kind",
 ]
 
 
@@ -955,7 +1023,7 @@ def load_case(d):
             c["fields"] = [(f, ty(x)) for f, x in c["fields"]]
         classes.append(c)
     return {"classes": classes, "ty": ty(d["ty"]), "kind": d["kind"], "pats": [pat(p) for p in d["pats"]],
-            "malformed": d.get("malformed", False)}
+            "malformed": d.get("malformed", False), "home": d.get("home")}
 
 
 def replay(ctx, path):
